@@ -1,5 +1,6 @@
 /- Helper lemmas for C18: the clauses of the property, assembled per form of pseudo-version. -/
 import ModVerif.Proofs.PseudoOrder
+import ModVerif.Proofs.PseudoTime
 namespace ModVerif.Proofs.Pseudo
 open ModVerif ModVerif.PseudoSpec
 open ModVerif.Pseudo hiding isDigit isAlnum
@@ -47,7 +48,7 @@ theorem pvPre_ne_nil (R0 ts rev : Bytes) : pvPre R0 ts rev ≠ [] := by simp [pv
 theorem between_aux {major older ts rev : Bytes} {p : Semver.Parsed} (hp : Semver.parse older = some p)
     (hts : Ts ts) (hrev : Rev rev) :
     ∃ pv, pseudoVersion major older ts rev = .ok pv ∧ Semver.compare older pv = -1 ∧
-      (p.prerelease = [] → ∃ z, Num z ∧ decValue z = decValue p.patch + 1 ∧
+      (p.prerelease = [] → ∀ z, Num z → decValue z = decValue p.patch + 1 →
           Semver.compare pv (118 :: p.major ++ 46 :: p.minor ++ 46 :: z) = -1) ∧
       (p.prerelease ≠ [] → Semver.compare pv (118 :: p.major ++ 46 :: p.minor ++ 46 :: p.patch) = -1) := by
   obtain ⟨n1, n2, n3, hpre, hbld, _⟩ := parse_inv hp
@@ -63,8 +64,10 @@ theorem between_aux {major older ts rev : Bytes} {p : Semver.Parsed} (hp : Semve
     injection hinc' with e
     subst e
     have hq := parse_pvText n1 n2 npat' (Mid.release _ _) hts hrev hbld
-    refine ⟨_, hpv, compare_patch_lt hp hq rfl rfl hcmp, fun _ => ⟨pat', npat', hval, ?_⟩, fun h => absurd h0 h⟩
-    rw [compare_same_nums hq (hrel pat' npat') rfl rfl rfl]
+    refine ⟨_, hpv, compare_patch_lt hp hq rfl rfl hcmp, fun _ z nz hz => ?_, fun h => absurd h0 h⟩
+    have ez : z = pat' := num_unique nz npat' (hz.trans hval.symm)
+    subst ez
+    rw [compare_same_nums hq (hrel z npat') rfl rfl rfl]
     exact comparePrerelease_nil _ (pvPre_ne_nil _ _ _)
   · have hR := Mid.prerelease p.minor p.patch body hb1 hb2
     have hq := parse_pvText n1 n2 n3 hR hts hrev hbld
